@@ -3,6 +3,7 @@ package c19
 import (
 	"encoding/json"
 	"fmt"
+	"path/filepath"
 	"strings"
 
 	"github.com/ajitpratap0/GoSQLX/pkg/sql/ast"
@@ -110,7 +111,84 @@ func validateVerdict(sql string, vf vflags) verdict {
 	return v
 }
 
+// validatePaths: the same failing inputs named on the command line in other spellings of their path.  A report must
+// name the failing inputs - whatever it does to the spelling, the name has to lead to the same file.
+func validatePaths(c *common.Ctx, format string, spell string) {
+	sb := newSandbox()
+	defer sb.close()
+	files := []file{baseClasses[3], baseClasses[0], validateClasses[4]} // i.sql (rejected), v.sql (accepted), sub/n.sql (rejected)
+	sb.put(files)
+	base := "w" // the working directory of every run is <sandbox>/w
+	sp := func(name string) string {
+		switch spell {
+		case "dot":
+			return "./" + name
+		case "sub-dotdot":
+			return "sub/../" + name
+		case "dot-sub-dotdot":
+			return "./sub/../" + name
+		case "dotdot-base":
+			return "../" + base + "/" + name
+		case "inner-dot":
+			if i := strings.LastIndex(name, "/"); i >= 0 {
+				return name[:i] + "/./" + name[i+1:]
+			}
+			return "./././" + name
+		case "double-slash":
+			return "sub//../" + name
+		}
+		return name
+	}
+	var args []string
+	for _, f := range files {
+		args = append(args, sp(f.Name))
+	}
+	args = cat([]string{"validate", "--output-format", format}, args...)
+	d := describe(args, files, nil)
+	c.Input(d)
+	r := sb.run(nil, nil, args...)
+	if r.TimedOut {
+		return
+	}
+	if r.Exit == 0 {
+		c.Fail("exit-mismatch:validate:"+format+":path-spelling", "exit status 0 although two inputs are rejected by the library\n"+d)
+		return
+	}
+	named, err := reportNames(format, r.Stdout)
+	if err != nil {
+		if strings.Contains(r.Stderr, "path") || strings.Contains(r.Stderr, "traversal") {
+			c.Outcome("validate-paths:refused-by-path-policy")
+			return
+		}
+		c.Fail("bad-json:validate:"+format, fmt.Sprintf("the %s report is not well-formed: %v\n%sreport: %s", format, err, d, common.Trim(r.Stdout, 300)))
+		return
+	}
+	resolve := func(n string) string {
+		n = strings.TrimPrefix(n, "file://")
+		if !filepath.IsAbs(n) {
+			n = filepath.Join(sb.root, "w", n)
+		}
+		return filepath.Clean(n)
+	}
+	got := map[string]bool{}
+	for n := range named {
+		got[resolve(n)] = true
+	}
+	want := map[string]bool{resolve(files[0].Name): true, resolve(files[2].Name): true}
+	if fmt.Sprint(sortedKeys(got)) != fmt.Sprint(sortedKeys(want)) {
+		c.Fail("report-names:validate:"+format+":path-spelling", fmt.Sprintf("with the inputs spelled %q the %s report names %v, which resolve to %v; the rejected inputs are %v\n%s\nreport: %s", spell, format, sortedKeys(named), sortedKeys(got), sortedKeys(want), d, common.Trim(r.Stdout, 1500)))
+	}
+	c.Outcome("validate-paths:" + format)
+	c.NonTrivial()
+}
+
 func enumValidate(e *common.Enum) {
+	for _, format := range []string{"json", "sarif"} {
+		for _, spell := range []string{"plain", "dot", "sub-dotdot", "dot-sub-dotdot", "dotdot-base", "inner-dot", "double-slash"} {
+			format, spell := format, spell
+			do(e, "validate-paths|"+format+"|"+spell, func(c *common.Ctx) { validatePaths(c, format, spell) })
+		}
+	}
 	b, x := baseClasses, validateClasses
 	all := append(append([]file{}, b...), x...)
 	var extra [][]file
